@@ -89,6 +89,9 @@ B32 = "RModel.BSI32."
 L2_BSI32_UPD = [B32 + n for n in ["wf_new", "wf_setValue", "getValue_eq", "get_set_same", "get_set_other", "get_foldl_setValue",
                                   "get_clearValues", "get_retainSet", "wf_clearValues", "get_parOr", "get_addIndex", "get_increment"]]
 L2_BSI32_Q = [B32 + n for n in ["compare_spec", "minMax_spec", "sum_spec", "batchEqual_spec", "getValue_eq"]]
+L2_PAR = [RP + n for n in ["toBSet_parOr", "wf_parOr", "parOr_worker_independent", "toBSet_parHeapOr", "wf_parHeapOr",
+                           "toBSet_parAnd", "wf_parAnd", "parHeapOr_worker_independent", "parAnd_worker_independent"]] + \
+    ["RModel.Impl.ParData.chunk_partition"]
 L1_XFORM = ["RModel.BSet.mem_shift", "RModel.BSet.canon_shift", "RModel.BSet.mem_flipRange", "RModel.BSet.canon_xor"]
 
 PROPS = {
@@ -145,15 +148,15 @@ PROPS = {
                          "RModel.Impl.decoded_valid_is_wf", "RModel.Impl.validate_implies_wf_of_decoded",
                          "RModel.Impl.frozenView_no_panic", "RModel.BSet.canon_ext"] + F_SERIAL,
             "modules": DEFAULT_MODULES + [FACTS, "RProofs.Properties.C09", "RProofs.Properties.C05", "RProofs.Properties.C13"], "owns": None},
-    "C11": {"suites": [("agg", 1.0), ("kernspecial", 0.6), ("l2agg", 0.7)], "theorems": L1_AGG + L1_ALGEBRA + L2_AGG + PINS,
-            "modules": DEFAULT_MODULES + ["RProofs.Agg", "RProofs.LazyOps", PINS_MOD], "owns": set(AGG_OPS) | {"kern", "l2agg", "l2lazy"}},
+    "C11": {"suites": [("agg", 1.0), ("kernspecial", 0.6), ("l2agg", 0.7), ("l2par", 0.5)], "theorems": L1_AGG + L1_ALGEBRA + L2_AGG + PINS + L2_PAR[:8],
+            "modules": DEFAULT_MODULES + ["RProofs.Agg", "RProofs.LazyOps", PINS_MOD, "RProofs.ParData"], "owns": set(AGG_OPS) | {"kern", "l2agg", "l2lazy", "l2par"}},
     # C12: schedule independence / termination / no leak (sched), concurrent decoding through the pools (concdec); the
     # protocol theorems are about the transition systems of Impl/Par.lean, pinned to the source by the skeleton obligations
-    "C12": {"suites": [("sched", 1.0)], "theorems": PAR + L1_AGG[:3],
-            "modules": DEFAULT_MODULES + ["RProofs.Agg", "RProofs.Par", "RProofs.Facts.Skeleton"], "owns": {"sched", "concdec", "concagg"},
+    "C12": {"suites": [("sched", 1.0), ("l2par", 0.5)], "theorems": PAR + L1_AGG[:3] + L2_PAR,
+            "modules": DEFAULT_MODULES + ["RProofs.Agg", "RProofs.Par", "RProofs.Facts.Skeleton", "RProofs.ParData"], "owns": {"sched", "concdec", "concagg"},
             # everything a race-detector job reports is C12's (also on the goroutine-parallel paths of the bit-sliced indexes and
             # of the 64-bit bitmap, whose results are checked by C17/C19/C20); elsewhere C12 owns its own commands only
-            "owns_fn": lambda op, mm, suite: suite.startswith("race:") or op in ("sched", "concdec", "concagg"),
+            "owns_fn": lambda op, mm, suite: suite.startswith("race:") or op in ("sched", "concdec", "concagg", "l2par"),
             "race_suites": [("sched", 1.0), ("bsi", 1.0), ("bsiq", 0.5), ("bsix", 0.3), ("r64", 0.5), ("agg", 0.5)],
             "race_quick": [("sched", 0.3), ("bsi", 0.4), ("bsiq", 0.3), ("r64", 0.3)]},
     "C13": {"suites": [("frozen", 1.0), ("frozenmis", 0.5), ("serall", 1.0)], "corpus": ["corpus/C10/frozen-bitmap4096.txt"],
